@@ -15,7 +15,7 @@ LEVEL = "exploration"
 N_QUICK, N_THOROUGH = 90000, 1000000
 T_QUICK, T_THOROUGH = 70, 1500
 FLOORS = {"scalar_echo_calls": 20000, "scalar_extremes": 3000, "object_address_calls": 5000, "addresses_after_growth": 800,
-          "pointer_arg_calls": 3000, "xobject_array_pointer_calls": 200, "slice_pointer_calls": 200, "noncontiguous_2d_pointer_calls": 200, "refusals_checked": 3000, "calls_via_attribute_dispatch": 5000,
+          "pointer_arg_calls": 3000, "xobject_array_pointer_calls": 200, "slice_pointer_calls": 200, "noncontiguous_2d_pointer_calls": 200, "refusals_checked": 3000, "calls_via_attribute_dispatch": 5000, "calls_after_rebuilding_a_kernel_name": 100,
           "mixed_signature_calls": 500, "ctx:serial": 1000, "ctx:openmp": 1000}
 FLOORS.update({f"echo:{k}": 800 for k in SC})
 RULE = ("echo kernels compiled once per worker in a serial and an OpenMP ContextCpu: id_<T>(x) for the 10 scalar types, "
@@ -127,6 +127,8 @@ def run_case(w, rng):
     K = _Kernels(ctx.kernels, rng, w)
     w.count("ctx:" + cname)
     kind = rng.choice(["echo", "echo", "objects", "objects", "pointers", "refusals", "mix"])
+    if rng.random() < 0.004:
+        kind = "rebuild"
     seen = set()
     info = dict(kind=kind, ctx=cname)
 
@@ -136,7 +138,39 @@ def run_case(w, rng):
             w.violation(mech, msg, info)
 
     try:
-        if kind == "echo":
+        if kind == "rebuild":
+            # a kernel name is built, called, then built again with another declaration on the same context:
+            # every way of reaching it must then use the new declaration
+            c2 = xo.ContextCpu()
+            c2._compile_kernels_info = False
+            nm = f"xv_echo_{next(_uid)}"
+
+            def build(T):
+                ct = T._c_type
+                c2.add_kernels(sources=[f"{ct} {nm}({ct} x){{ return x; }}\nint64_t {nm}_n(const {ct}* p){{ return (int64_t)sizeof(p[0]); }}"],
+                               kernels={nm: xo.Kernel(args=[xo.Arg(T, name="x")], ret=xo.Arg(T)),
+                                        nm + "_n": xo.Kernel(args=[xo.Arg(T, pointer=True, const=True, name="p")], ret=xo.Arg(xo.Int64))},
+                               extra_compile_args=("-O0", "-w"), extra_link_args=())
+            T1, T2 = rng.choice([(xo.Float32, xo.Float64), (xo.Int32, xo.Int64), (xo.Int8, xo.Int64)])
+            build(T1)
+            getattr(c2.kernels, nm)(x=1)
+            c2.kernels[nm](x=1)
+            build(T2)
+            val = 0.1 if T2 is xo.Float64 else 2 ** 40 + 3
+            for how, fn in (("attribute", getattr(c2.kernels, nm)), ("item", c2.kernels[nm])):
+                got = fn(x=val)
+                w.count("calls_after_rebuilding_a_kernel_name")
+                if T2._dtype.type(got).tobytes() != T2._dtype.type(val).tobytes():
+                    viol(f"rebuilt-kernel-uses-old-declaration|{how}", f"{nm}(x={val!r}) returned {got!r} after the kernel was rebuilt for {T2.__name__}")
+            arr = np.zeros(3, dtype=T2._dtype)
+            try:
+                sz = getattr(c2.kernels, nm + "_n")(p=arr)
+                if int(sz) != T2._dtype.itemsize:
+                    viol("rebuilt-kernel-uses-old-declaration|pointer", f"element size seen {sz}")
+            except Exception as e:
+                viol("rebuilt-kernel-refuses-array-of-the-new-type", f"{type(e).__name__}: {e}")
+            w.case(["rebuild", T1.__name__, T2.__name__], None)
+        elif kind == "echo":
             tn = rng.choice(list(SC))
             dt = DT[tn]
             for v in scalar_values(rng, tn, w):
